@@ -102,6 +102,11 @@ def entityErrText (e : Str) : Str :=
   | '#' :: num => num
   | _ => e
 
+/-- `result.push(c)` in front of the rest of the loop's result. -/
+def consOk (c : Char) : Except ContentErr Str → Except ContentErr Str
+  | .ok r => .ok (c :: r)
+  | .error e => .error e
+
 /-- `parse_content(content, attribute, base_position)`; `pos` is the byte offset of the
     next character. -/
 def parseContentGo (attr : Bool) (base : Nat) : Nat → Str → Except ContentErr Str
@@ -109,9 +114,7 @@ def parseContentGo (attr : Bool) (base : Nat) : Nat → Str → Except ContentEr
   | pos, c :: rest =>
     if c = '\r' then
       let out := if attr then ' ' else '\n'
-      match parseContentGo attr base (pos + 1 + (rest.length - (skipLf rest).length)) (skipLf rest) with
-      | .ok r => .ok (out :: r)
-      | .error e => .error e
+      consOk out (parseContentGo attr base (pos + 1 + (rest.length - (skipLf rest).length)) (skipLf rest))
     else if c = '&' then
       match h : splitSemi rest with
       | none => .error (.unclosed rest (base + pos))
@@ -120,17 +123,11 @@ def parseContentGo (attr : Bool) (base : Nat) : Nat → Str → Except ContentEr
         match decodeEntity ent with
         | none => .error (.invalid (entityErrText ent) (base + pos) (base + stop))
         | some ch =>
-          match parseContentGo attr base stop rest' with
-          | .ok r => .ok (ch :: r)
-          | .error e => .error e
+          consOk ch (parseContentGo attr base stop rest')
     else if attr && (c = '\t' || c = '\n') then
-      match parseContentGo attr base (pos + utf8Len c) rest with
-      | .ok r => .ok (' ' :: r)
-      | .error e => .error e
+      consOk ' ' (parseContentGo attr base (pos + utf8Len c) rest)
     else
-      match parseContentGo attr base (pos + utf8Len c) rest with
-      | .ok r => .ok (c :: r)
-      | .error e => .error e
+      consOk c (parseContentGo attr base (pos + utf8Len c) rest)
 termination_by _ s => s.length
 decreasing_by
   all_goals simp_wf
@@ -205,5 +202,37 @@ def collapseSpaces : Bool → Str → Str
 
 /-- `parse.rs normalize_xml_id`. -/
 def normalizeXmlId (s : Str) : Str := collapseSpaces false (stripOneSuffix (stripOnePrefix s))
+
+/-! ### Reading CDATA sections back (specification side, XML 1.0 §2.7)
+
+`inSection` reads section content up to the first `]]>`; `afterSection` expects either the end
+of the text or another `<![CDATA[`.  The result is the concatenation of the section contents. -/
+
+mutual
+def inSection : Str → Option Str
+  | [] => none
+  | ']' :: ']' :: '>' :: rest => afterSection rest
+  | c :: rest => (inSection rest).map (c :: ·)
+def afterSection : Str → Option Str
+  | [] => some []
+  | '<' :: '!' :: '[' :: 'C' :: 'D' :: 'A' :: 'T' :: 'A' :: '[' :: rest => inSection rest
+  | _ => none
+end
+
+/-- Contents of a text that consists of CDATA sections only. -/
+def cdataSectionsContent (s : Str) : Option Str :=
+  match s with
+  | [] => none
+  | _ => afterSection s
+
+/-- Does the text start with `]]>`? -/
+def startsCdataEnd : Str → Bool
+  | a :: b :: c :: _ => a == ']' && b == ']' && c == '>'
+  | _ => false
+
+/-- Does the text contain `]]>`? -/
+def hasCdataEnd : Str → Bool
+  | [] => false
+  | c :: rest => startsCdataEnd (c :: rest) || hasCdataEnd rest
 
 end XotModel
